@@ -281,6 +281,7 @@ func (f *Frame) callByContract(st *state, callee *ssa.Function, ct *FuncContract
 		u.sortOfSite(s, srt)
 		h := u.ctx.freshConst(f.prefix+".callM:"+s, SArr(SInt, srt))
 		u.putArr(st.mem, s, h)
+		u.typingAxiom(h, s, na)
 		in := inAny(ranges[s], "a!")
 		u.ctx.assert("call-frame", fmt.Sprintf("(forall ((a! Int)) (! (=> (and (< a! %s) %s) (= (select %s a!) (select %s a!))) :pattern ((select %s a!))))", preAlloc, not(in), h, old, h))
 	}
@@ -296,6 +297,7 @@ func (f *Frame) callByContract(st *state, callee *ssa.Function, ct *FuncContract
 		}
 	}
 	envPost := u.funcEnv(callee, args, results, st, pre)
+	envPost.assume = true
 	for _, c := range ct.Ensures {
 		term, _, err := u.evalClauseBool(envPost, c)
 		if err != nil {
@@ -363,6 +365,7 @@ func encodeUnit(p *Program, db *ContractDB, root *ssa.Function) (res *UnitResult
 	}
 	if ct != nil {
 		env := u.funcEnv(root, f.params, nil, entry, entry)
+		env.assume = true
 		for _, c := range ct.Requires {
 			term, _, err := u.evalClauseBool(env, c)
 			if err != nil {
@@ -586,7 +589,89 @@ func relevantItem(it *item, anc map[int]bool) bool {
 	return anc[it.blk]
 }
 
-func (u *Unit) scriptOpt(o *Obligation, dropQuant bool) string {
+// lastArgsOf collects the distinct last arguments of applications of sym in text.
+func lastArgsOf(text, sym string, out map[string]bool) {
+	needle := "(" + sym + " "
+	for i := 0; ; {
+		j := strings.Index(text[i:], needle)
+		if j < 0 {
+			return
+		}
+		start := i + j
+		// find the matching close paren
+		depth := 0
+		inq := false
+		end := -1
+		lastArgStart := -1
+		for k := start; k < len(text); k++ {
+			c := text[k]
+			if c == '|' {
+				inq = !inq
+			}
+			if inq {
+				continue
+			}
+			if c == '(' {
+				depth++
+				if depth == 2 {
+					lastArgStart = k
+				}
+			} else if c == ')' {
+				depth--
+				if depth == 0 {
+					end = k
+					break
+				}
+			} else if c == ' ' && depth == 1 {
+				lastArgStart = k + 1
+			}
+		}
+		if end < 0 {
+			return
+		}
+		if lastArgStart > 0 && lastArgStart < end {
+			out[strings.TrimSpace(text[lastArgStart:end])] = true
+		}
+		i = start + len(needle)
+	}
+}
+
+// dropUselessFrames removes the frame axiom of a recursive spec function when the query applies the function to a
+// single heap only (the axiom quantifies over arrays, which makes some solvers give up).
+func dropUselessFrames(script string) string {
+	if !strings.Contains(script, "(H1! ") {
+		return script
+	}
+	lines := strings.Split(script, "\n")
+	var out []string
+	for _, ln := range lines {
+		if strings.HasPrefix(ln, "(assert (forall ((f! Fuel) (g! Fuel)") && strings.Contains(ln, "(H1! ") {
+			// the function symbol is the first "|spec:...|" in the pattern
+			k := strings.Index(ln, "(= (|spec:")
+			if k >= 0 {
+				rest := ln[k+4:]
+				e := strings.Index(rest[1:], "|")
+				sym := rest[:e+2]
+				heaps := map[string]bool{}
+				for _, other := range lines {
+					if other == ln || strings.HasPrefix(other, "(declare-fun "+sym) || strings.Contains(other, "(forall ((f! Fuel)") {
+						continue
+					}
+					lastArgsOf(other, sym, heaps)
+				}
+				if len(heaps) < 2 {
+					continue
+				}
+			}
+		}
+		out = append(out, ln)
+	}
+	return strings.Join(out, "\n")
+}
+
+func (u *Unit) scriptOpt(o *Obligation, dropQuant bool) string { return dropUselessFrames(u.scriptOpt0(o, dropQuant)) }
+
+func (u *Unit) scriptOpt0(o *Obligation, dropQuant bool) string {
 	var b strings.Builder
 	items := u.ctx.items[:o.Mark]
 	anc := u.ancestorBlocks(o.Blk)
@@ -688,7 +773,7 @@ func solveUnit(res *UnitResult, opt Options) {
 			defer func() { <-sem }()
 			script := u.script(o)
 			o.Res = solve(script, u.inputSyms(), opt.Timeout, opt.NeedAgree)
-			if o.Res.Verdict == "unknown" && !strings.Contains(o.Cond, "(forall ") {
+			if o.Res.Verdict == "unknown" {
 				// candidate counterexample search without quantified assumptions
 				r2 := solve(u.scriptQF(o), u.inputSyms(), opt.Timeout, 1)
 				if r2.Verdict == "sat" {
